@@ -527,3 +527,107 @@ func evalC18Rect(c *rt.Case) (bool, string, string, error) {
 	class, exp, got, _ := rectSeriesOne(rc, mi)
 	return class != "", exp, got, nil
 }
+
+// c19UlpGrid: narrow steep segments far from the y axis. x ordinates are
+// +-(2^20-1) + k*2^-33 (one ulp apart at that magnitude), y ordinates small
+// integers: every (segment, point) triple over a 7x7 alphabet and every
+// segment pair over a 4x4 alphabet. The oracle works on the integer pairs
+// (k, y): orientation, on-segment and ray-crossing decisions are invariant
+// under the (positive, per-axis) change of units.
+func c19UlpGrid(r *rt.Run) {
+	const ulp = 1.0 / (1 << 33)
+	for _, base := range []float64{1048575, -1048575} {
+		base := base
+		fx := func(k int64) float64 { return base + float64(k)*ulp }
+		mk := func(p exact.P) geometry.Point { return geometry.Point{X: fx(p.X), Y: float64(p.Y)} }
+		var pts []exact.P
+		for k := int64(0); k < 7; k++ {
+			for y := int64(0); y < 7; y++ {
+				pts = append(pts, exact.P{X: k, Y: y})
+			}
+		}
+		r.ParFor(len(pts), func(i int, w *rt.Worker) {
+			a := pts[i]
+			for _, b := range pts {
+				fs := geometry.Segment{A: mk(a), B: mk(b)}
+				for _, p := range pts {
+					on := exact.OnSeg(p, a, b)
+					in := !on && exact.RayCross(p.R(), a, b)
+					fp := mk(p)
+					w.Evals += 3
+					w.States++
+					if on || in {
+						w.Nontriv++
+					}
+					if res := fs.Raycast(fp); res.On != on || res.In != in {
+						w.Fail("raycast-ulp-grid", func() (rt.Case, string, string) {
+							return rt.Case{Kind: "ulp-grid", Op: "raycast", Nums: []float64{base, float64(a.X), float64(a.Y), float64(b.X), float64(b.Y), float64(p.X), float64(p.Y)}},
+								fmt.Sprintf("on=%v in=%v", on, in), fmt.Sprintf("on=%v in=%v", res.On, res.In)
+						})
+					}
+					if got := fs.ContainsPoint(fp); got != on {
+						w.Fail("containspoint-ulp-grid", func() (rt.Case, string, string) {
+							return rt.Case{Kind: "ulp-grid", Op: "containspoint", Nums: []float64{base, float64(a.X), float64(a.Y), float64(b.X), float64(b.Y), float64(p.X), float64(p.Y)}}, fmt.Sprint(on), fmt.Sprint(got)
+						})
+					}
+					if got := fs.CollinearPoint(fp); got != exact.Collinear(p, a, b) {
+						w.Fail("collinear-ulp-grid", func() (rt.Case, string, string) {
+							return rt.Case{Kind: "ulp-grid", Op: "collinear", Nums: []float64{base, float64(a.X), float64(a.Y), float64(b.X), float64(b.Y), float64(p.X), float64(p.Y)}}, fmt.Sprint(!got), fmt.Sprint(got)
+						})
+					}
+					// segment pairs over the 4x4 sub-alphabet
+					if a.X < 4 && a.Y < 4 && b.X < 4 && b.Y < 4 && p.X < 4 && p.Y < 4 {
+						for _, q := range pts {
+							if q.X >= 4 || q.Y >= 4 {
+								continue
+							}
+							fo := geometry.Segment{A: fp, B: mk(q)}
+							want := exact.SegsIntersect(a, b, p, q)
+							w.Evals += 2
+							if g1, g2 := fs.IntersectsSegment(fo), fo.IntersectsSegment(fs); g1 != want || g2 != want {
+								w.Fail("intersects-ulp-grid", func() (rt.Case, string, string) {
+									return rt.Case{Kind: "ulp-grid", Op: "intersects", Nums: []float64{base, float64(a.X), float64(a.Y), float64(b.X), float64(b.Y), float64(p.X), float64(p.Y), float64(q.X), float64(q.Y)}}, fmt.Sprint(want), fmt.Sprintf("%v / swapped %v", g1, g2)
+								})
+							}
+						}
+					}
+				}
+			}
+		})
+	}
+}
+
+func evalC19UlpGrid(c *rt.Case) (bool, string, string, error) {
+	const ulp = 1.0 / (1 << 33)
+	if len(c.Nums) < 7 {
+		return false, "", "", fmt.Errorf("malformed case")
+	}
+	base := c.Nums[0]
+	ip := func(i int) exact.P { return exact.P{X: int64(c.Nums[i]), Y: int64(c.Nums[i+1])} }
+	mk := func(p exact.P) geometry.Point { return geometry.Point{X: base + float64(p.X)*ulp, Y: float64(p.Y)} }
+	a, b, p := ip(1), ip(3), ip(5)
+	fs := geometry.Segment{A: mk(a), B: mk(b)}
+	on := exact.OnSeg(p, a, b)
+	switch c.Op {
+	case "raycast":
+		in := !on && exact.RayCross(p.R(), a, b)
+		res := fs.Raycast(mk(p))
+		return res.On != on || res.In != in, fmt.Sprintf("on=%v in=%v", on, in), fmt.Sprintf("on=%v in=%v", res.On, res.In), nil
+	case "containspoint":
+		got := fs.ContainsPoint(mk(p))
+		return got != on, fmt.Sprint(on), fmt.Sprint(got), nil
+	case "collinear":
+		got := fs.CollinearPoint(mk(p))
+		return got != exact.Collinear(p, a, b), fmt.Sprint(!got), fmt.Sprint(got), nil
+	case "intersects":
+		if len(c.Nums) < 9 {
+			return false, "", "", fmt.Errorf("malformed case")
+		}
+		q := ip(7)
+		fo := geometry.Segment{A: mk(p), B: mk(q)}
+		want := exact.SegsIntersect(a, b, p, q)
+		g1, g2 := fs.IntersectsSegment(fo), fo.IntersectsSegment(fs)
+		return g1 != want || g2 != want, fmt.Sprint(want), fmt.Sprintf("%v / swapped %v", g1, g2), nil
+	}
+	return false, "", "", fmt.Errorf("unknown op")
+}
